@@ -28,6 +28,7 @@ pub struct RunStats {
     pub healthy_ratio_den: u64,
     pub stub_validated: bool,
     pub stub_disagreement: Option<String>,
+    pub unexpected_reference_errors: u64,
 }
 
 pub struct Exec {
@@ -474,6 +475,18 @@ pub fn check(scn: &C11Scenario, stats: &mut RunStats) -> Result<Vec<Violation>, 
         Outcome::Panic(_) => unreachable!(),
     };
 
+    if !ref_errors.is_empty()
+        && scn.bad_files.is_empty()
+        && scn.faults.is_empty()
+        && unwritable_sources(scn, &lay).is_empty()
+    {
+        // a project generated as healthy fails in the reference run: the generator (or
+        // darklua) is wrong about something; counted, and visible in the evidence
+        stats.unexpected_reference_errors += 1;
+        if std::env::var_os("VERIF_TRACE").is_some() {
+            crate::outln!("unexpected reference errors (seed {}): {:?}", scn.seed, ref_errors);
+        }
+    }
     // --- the faulty set F
     let ref_lay = layout(&ref_scn, &ref_entries);
     let mut faulty: BTreeSet<String> = BTreeSet::new();
@@ -1052,7 +1065,10 @@ pub fn generate(seed: u64) -> C11Scenario {
                     bad_files.push(victim_path);
                 }
                 2 => {
-                    if project.bundle.is_some() {
+                    if project.bundle.is_some()
+                        && !(project.bundle.as_deref() == Some("luau")
+                            && gen::is_module_folder_file(&victim_path))
+                    {
                         let missing = gen::join(gen::parent(&victim_path), "does-not-exist.lua");
                         project.sources[victim].requires.push(missing);
                         bad_files.push(victim_path);
@@ -1068,6 +1084,9 @@ pub fn generate(seed: u64) -> C11Scenario {
                         && project.sources.len() >= 2
                         && !project.sources[victim].use_alias
                         && !project.sources[other].use_alias
+                        && !(project.bundle.as_deref() == Some("luau")
+                            && (gen::is_module_folder_file(&project.sources[victim].path)
+                                || gen::is_module_folder_file(&project.sources[other].path)))
                     {
                         // a require cycle
                         let (a, b) = (victim.min(other), victim.max(other));
@@ -1481,6 +1500,26 @@ impl Property for C11 {
         }
         if scn.opts.output.is_none() {
             counters.insert("runs_in_place".to_owned(), 1);
+        }
+        counters.insert(
+            "healthy_projects_failing_in_reference".to_owned(),
+            stats.unexpected_reference_errors,
+        );
+        if let Some(mode) = scn
+            .entries
+            .iter()
+            .filter_map(|e| match &e.body {
+                Body::Text(t) if t.contains("\"require_mode\"") => Some(t.clone()),
+                _ => None,
+            })
+            .next()
+            .or_else(|| match &scn.opts.config {
+                crate::model::ConfigSource::Object(t) if t.contains("\"require_mode\"") => Some(t.clone()),
+                _ => None,
+            })
+        {
+            let key = if mode.contains("\"luau\"") { "bundle:luau" } else { "bundle:path" };
+            counters.insert(key.to_owned(), 1);
         }
         if stats.stub_validated {
             counters.insert("stub_validated_against_real_fs".to_owned(), 1);
